@@ -118,13 +118,48 @@ theorem examineD_fail_iff (rq : Request) (d : Datagram) :
     cases hk : d.questions.all (askedCase rq) <;>
     by_cases hid : rq.id = d.id <;> simp [hid]
 
-theorem endsInsteadOfSkipped_iff (rq : Request) (d : Datagram) :
-    endsInsteadOfSkipped rq d = true ↔ ∃ w, examineD rq d = .fail w := by
-  rw [examineD_fail_iff]
-  unfold endsInsteadOfSkipped
+theorem endsUndecodable_iff (rq : Request) (d : Datagram) :
+    endsUndecodable rq d = true ↔ (examineD rq d = .fail .parse ∨ examineD rq d = .fail .notResponse) := by
+  unfold endsUndecodable examineD
   cases sourceOk rq d <;> cases d.parses <;> cases d.isResponse <;> cases rq.caseRand <;>
     cases d.questions.all (asked rq) <;> cases d.questions.all (askedCase rq) <;>
     by_cases hid : rq.id = d.id <;> simp [hid]
+
+theorem endsCaseMismatch_iff (rq : Request) (d : Datagram) :
+    endsCaseMismatch rq d = true ↔ examineD rq d = .fail .caseMismatch := by
+  unfold endsCaseMismatch examineD
+  cases sourceOk rq d <;> cases d.parses <;> cases d.isResponse <;> cases rq.caseRand <;>
+    cases d.questions.all (asked rq) <;> cases d.questions.all (askedCase rq) <;>
+    by_cases hid : rq.id = d.id <;> simp [hid]
+
+theorem endsInsteadOfSkipped_iff (rq : Request) (d : Datagram) :
+    endsInsteadOfSkipped rq d = true ↔ ∃ w, examineD rq d = .fail w := by
+  unfold endsInsteadOfSkipped
+  rw [Bool.or_eq_true, endsUndecodable_iff, endsCaseMismatch_iff]
+  constructor
+  · rintro ((h | h) | h) <;> exact ⟨_, h⟩
+  · rintro ⟨w, h⟩
+    cases w with
+    | io =>
+      exfalso; revert h; unfold examineD
+      cases sourceOk rq d <;> cases d.parses <;> cases d.isResponse <;> cases rq.caseRand <;>
+        cases d.questions.all (asked rq) <;> cases d.questions.all (askedCase rq) <;>
+        by_cases hid : rq.id = d.id <;> simp [hid]
+    | parse => exact .inl (.inl h)
+    | notResponse => exact .inl (.inr h)
+    | caseMismatch => exact .inr h
+
+/-- the two classes are disjoint, and neither contains a matching datagram -/
+theorem endClasses_disjoint (rq : Request) (d : Datagram) :
+    ¬ (endsUndecodable rq d = true ∧ endsCaseMismatch rq d = true) := by
+  rw [endsUndecodable_iff, endsCaseMismatch_iff]
+  rintro ⟨h | h, h'⟩ <;> rw [h] at h' <;> cases h'
+
+theorem endsInsteadOfSkipped_not_matches (rq : Request) (d : Datagram)
+    (h : endsInsteadOfSkipped rq d = true) : ¬ Matches rq d := by
+  intro m
+  obtain ⟨w, hw⟩ := (endsInsteadOfSkipped_iff rq d).1 h
+  rw [(examineD_accept_iff rq d).2 m] at hw; cases hw
 
 /-
 Full statement of the clause "other datagrams are skipped" — FALSE of the code as it is:
@@ -354,6 +389,16 @@ theorem udp_query_never_accepts_nonmatching (c : Config) (rq : Request) (ss : Li
   | err => exact .inr (.inl rfl)
   | timeout => exact .inr (.inr rfl)
 
+/-- a query that falls in a known-finding class ended in an error (never in an acceptance) -/
+theorem queryEndClass_err (c : Config) (rq : Request) (ss : List (List Timed))
+    (h : queryEndClass c rq ss ≠ .none) : query c rq ss = .err := by
+  unfold queryEndClass at h
+  unfold query
+  split at h
+  · rename_i t i j w he
+    rw [he]; rfl
+  · exact absurd rfl h
+
 theorem takenBy_go_le (tEnd : Nat) (w : Bool) (t k : Nat) (l : List Timed) :
     takenBy.go tEnd w t k l ≤ k + l.length := by
   induction l generalizing t k with
@@ -422,6 +467,19 @@ theorem skipped_counterexample :
   refine ⟨fun m => ?_, by decide, by decide, by decide⟩
   have := (examineD_accept_iff _ _).2 m
   revert this; decide
+-- the same clause fails for the second class: a reply in other letter case, case randomisation on
+theorem skipped_counterexample_case :
+    ¬ Matches exRq exCaseFlip ∧ endsCaseMismatch exRq exCaseFlip = true ∧
+      recv exRq [.dgram exCaseFlip, .dgram exGenuine] = .fail 0 .caseMismatch := by
+  refine ⟨fun m => ?_, by decide, by decide⟩
+  have := (examineD_accept_iff _ _).2 m
+  revert this; decide
+-- one concrete member of each class, and what it does to a query whose genuine reply follows
+example : endsUndecodable exRq exGarbage = true ∧ endsCaseMismatch exRq exCaseFlip = true := by decide
+example : queryEndClass { timeout := 5010, interval := 1000, maxRetries := 3 } exRq
+    [[(0, .dgram exGarbage), (1, .dgram exGenuine)]] = .undecodable := by decide
+example : queryEndClass { timeout := 5010, interval := 1000, maxRetries := 3 } exRq
+    [[(0, .dgram exCaseFlip), (1, .dgram exGenuine)]] = .caseMismatch := by decide
 -- hypotheses of `udp_nonmatching_skipped_partial` are satisfiable (wrong id: skipped)
 example : ¬ Matches exRq exWrongId ∧ endsInsteadOfSkipped exRq exWrongId = false := by
   refine ⟨fun m => ?_, by decide⟩
